@@ -1,19 +1,22 @@
-"""C06 (clause: the parser never panics and never reads outside the string).
+"""C06 (clauses: the parser never panics / never reads outside the string; magnitude of the result under contract A of the scanners).
 
 Decided: str_to_dec, <Decimal as FromStr>::from_str and the two TryFrom impls have no panic edge of any kind (bounds checks,
 arithmetic overflow on usize / isize / u8 casts, debug assertions) and every unsafe operation's precondition
 (get_unchecked(n..): n <= len; read_unaligned::<u64>: len >= 8) holds, for input slices of every length 0..=isize::MAX.
 Modular: the three scanning helpers are analysed alone with widening at their loop heads and then replaced by the
 summaries their analysis established.
-NOT decided: which strings are accepted, the value returned, completeness of the overflow detection (a value-level
-defect of the parser - wrap-around of the u128 accumulator for 39+ digit inputs - is therefore outside this check).
+Value clause (V-PARSE-VALUE, job_value): with the three scanners replaced by their value-level contract A (assumed; the arithmetic flavour
+of the accumulation is read off accum_coeff's body), every Ok((c, e)) of str_to_dec returns c = +-D (D = the literal's digits as a number,
+D <= i128::MAX implied) and e = +-exponent - (fractional digits), and every Err(InternalOverflow) implies D > i128::MAX.
+This clause found the wrap-around defect D5 and the leading-fractional-zeros defect D11 (both repaired by a fix: commit).
+NOT decided: which byte strings are accepted (the grammar), the association of sign bytes with signs.
 """
-from ..absint import (Interp, Opts, ByRef, Agg, Int, K, SliceVal, Ref, Stop, PanicExc, Infeasible, NONPOS, NONNEG, ZERO, RESULT)
+from ..absint import (Interp, Opts, ByRef, Agg, Int, K, SliceVal, Ref, Stop, PanicExc, Infeasible, NONPOS, NONNEG, ZERO, NEG, POS, RESULT)
 from .. import absint, mir
 from ..harness import (get_db, run_jobs, show_outcome, show_poly, poly_eq, variant_name)
 from ..db import span_str
 from ..models import deref
-from ..poly import padd, pconst, patom
+from ..poly import padd, pconst, patom, pfreeze, pscale
 
 P = 'fpdec_core::parser::'
 LIT = P + 'AsciiDecLit'
@@ -64,6 +67,16 @@ def shrink(I, st, ref):
     return old, new
 
 
+def shrink_later(I, st, ref):
+    """like shrink, but the write-back is returned as a thunk: frame stores are not undone when a later choice point re-executes the call"""
+    lit = lit_of(I, st, ref)
+    old = lit.fields[0].len
+    lo, hi = st.itv(old)
+    new = st.fresh('usize', 0, hi, 'len')
+    st.assume(padd(new.p, old.p, -1), NONPOS)
+    return old, new, (lambda: write_back(I, st, ref, Agg(LIT, lit.variant, (SliceVal(new, lit.fields[0].tag),))))
+
+
 def summ_skip_zeroes(I, st, args, fid):
     shrink(I, st, args[0])
     return args[0]
@@ -91,6 +104,244 @@ def summaries(db):
             helper(db, 'accum_exp')['id']: summ_accum_exp}
 
 
+# ----------------------------------------------------------------------------- value clause (coefficient magnitude), under contract A of the scanners
+TWO127 = 2 ** 127
+TWO128 = 2 ** 128
+DBIG = 2 ** 700          # stands for "unbounded" (digit strings of any length)
+
+
+def accum_flavour(db):
+    """how accum_coeff combines digits, read off its body: every multiply / add on the accumulator is wrapping_* -> 'wrapping',
+    saturating_* -> 'saturating'; anything else / mixed -> None (the contract below cannot be instantiated)"""
+    fn = helper(db, 'accum_coeff')
+    kinds = set()
+    n = 0
+    for bi, t, blk in mir.iter_calls(fn):
+        path = mir.callee(t)[1] or ''
+        if '<impl u128>::' in path:
+            op = path.rsplit('::', 1)[1]
+            if op.startswith('wrapping_') and op[9:] in ('mul', 'add'):
+                kinds.add('wrapping')
+                n += 1
+            elif op.startswith('saturating_') and op[11:] in ('mul', 'add'):
+                kinds.add('saturating')
+                n += 1
+            else:
+                kinds.add('other:' + op)
+    # plain operators on u128 in the body would be another way to accumulate: not covered
+    for blk in fn['blocks']:
+        for s_ in blk.get('stmts', []):
+            js = str(s_)
+            if "'binop'" in js and ('Mul' in js or 'Add' in js) and 'u128' in js:
+                kinds.add('other:operator')
+    if len(kinds) == 1 and n >= 4:
+        return kinds.pop()
+    return None
+
+
+def value_summaries(db, flavour):
+    """CONTRACT A (assumed): skip_leading_zeroes consumes the maximal prefix of '0' bytes; accum_coeff consumes the maximal prefix of k ASCII digits
+    and leaves *coeff = fold(*coeff * 10^k + value of these digits) with the arithmetic flavour read off its body (modulo 2^128 / saturating at
+    2^128-1), returning k; accum_exp likewise with exact arithmetic for at most 7 digits.  Ghost quantities: n = number of digits accumulated so far,
+    D = their value as one decimal numeral (10^(n-1) <= D < 10^n when the first accumulated digit is known to be non-zero, else 0 <= D < 10^n)."""
+    def s_skip(I, st, args, fid):
+        shrink(I, st, args[0])
+        lit = lit_of(I, st, args[0])
+        st.ghost = dict(st.ghost, zskip=pfreeze_len(st, lit))
+        return args[0]
+
+    def s_coeff(I, st, args, fid):
+        lit0 = lit_of(I, st, args[0])
+        before = pfreeze_len(st, lit0)
+        cin = deref(I, st, args[1])
+        old, new, commit_lit = shrink_later(I, st, args[0])
+        k = I.mk(st, 'usize', padd(old.p, new.p, -1), 0, None)
+        g = dict(st.ghost)
+        prev = g.get('digits')           # (D poly, n poly, lead, coeff poly)
+        if prev is None:
+            if st.itv(cin) != (0, 0):
+                raise Stop('contract A: first accumulation must start from 0')
+            nprev, dprev, lead_prev = pconst(0), pconst(0), None
+        else:
+            dprev, nprev, lead_prev, cprev = prev
+            if not poly_eq(st, cin.p, dict(cprev)):
+                raise Stop('contract A: the accumulator was changed between the two accumulations')
+            dprev, nprev = dict(dprev), dict(nprev)
+        kz = st.decide(k.p, [ZERO, POS | NEG])
+        if kz == 0:
+            # no digit consumed: nothing changes
+            if prev is None:
+                g['digits'] = (pfreeze(pconst(0)), pfreeze(pconst(0)), None, pfreeze(st.norm(cin.p)))
+            g['k_last'] = pfreeze(pconst(0))
+            st.ghost = g
+            commit_lit()
+            return I.mk(st, 'usize', pconst(0))
+        if lead_prev is None:
+            # first digit accumulated at all: non-zero iff we stand right behind skip_leading_zeroes
+            lead = g.get('zskip') == before
+        else:
+            lead = lead_prev
+        n = st.norm(padd(nprev, k.p))
+        cls = st.decide(padd(n, pconst(39), -1), [NEG, ZERO, POS])
+        lo_d = 0
+        if cls == 0:
+            lo_d, hi_d = (1 if lead else 0), 10 ** 38 - 1
+        elif cls == 1:
+            lo_d, hi_d = (10 ** 38 if lead else 0), 10 ** 39 - 1
+        else:
+            lo_d, hi_d = (10 ** 39 if lead else 0), DBIG
+        D = st.fresh_big('D', lo_d, hi_d) if hasattr(st, 'fresh_big') else None
+        if D is None:
+            a = st.atoms.fresh('D')
+            st._jset('bounds', a, (lo_d, hi_d))
+            from ..poly import patom
+            D = patom(a)
+        st.assume(padd(D, dprev, -1), NONNEG)           # appending digits does not decrease the numeral
+        if flavour == 'wrapping':
+            if hi_d < TWO128:
+                w = I.mk(st, 'u128', D, 0, TWO128 - 1)
+            elif hi_d < 3 * TWO128:
+                T = I.tdiv_atom(st, st.norm(D), pconst(TWO128))
+                w = I.mk(st, 'u128', padd(D, pscale(T, TWO128), -1), 0, TWO128 - 1)
+            else:
+                w = st.fresh('u128', tag='wrapped')
+        else:
+            big = st.decide(padd(D, pconst(TWO128), -1), [NEG, ZERO | POS])
+            w = I.mk(st, 'u128', D, 0, TWO128 - 1) if big == 0 else K(TWO128 - 1, 'u128')
+        commit_lit()
+        write_back(I, st, args[1], w)
+        g['digits'] = (pfreeze(st.norm(D)), pfreeze(n), lead, pfreeze(st.norm(w.p)))
+        g['k_last'] = pfreeze(st.norm(k.p))
+        g['n_calls'] = g.get('n_calls', 0) + 1
+        st.ghost = g
+        return k
+
+    def s_exp(I, st, args, fid):
+        e = deref(I, st, args[1])
+        if st.itv(e) != (0, 0):
+            raise Stop('summary of accum_exp needs *exp == 0 at the call site')
+        old, new, commit_lit = shrink_later(I, st, args[0])
+        k = I.mk(st, 'usize', padd(old.p, new.p, -1), 0, None)
+        small = st.decide(padd(k.p, pconst(2), -1), [NEG | ZERO, POS])
+        if small == 0:
+            E = st.fresh('isize', 0, 99, 'E')
+        else:
+            E = st.fresh('isize', 0, EXP_MAX, 'E')
+        commit_lit()
+        write_back(I, st, args[1], E)
+        st.ghost = dict(st.ghost, E=pfreeze(st.norm(E.p)))
+        return k
+    return {helper(db, 'skip_leading_zeroes')['id']: s_skip, helper(db, 'accum_coeff')['id']: s_coeff, helper(db, 'accum_exp')['id']: s_exp}
+
+
+def pfreeze_len(st, lit):
+    from ..poly import pfreeze
+    return pfreeze(st.norm(lit.fields[0].len.p))
+
+
+def wrap_cases(s, D):
+    """case split of path s over the number of wrap-arounds j = D div 2^128 (when the wrapping contract introduced it): states with j fixed"""
+    from ..poly import patom
+    a = s.atoms.lookup(('tdiv', pfreeze(s.norm(D)), pfreeze(pconst(TWO128))))
+    if a is None or a in s.subst or a not in s.bounds:
+        return [s]
+    lo, hi = s.bounds[a]
+    if lo == hi or hi - lo > 4:
+        return [s]
+    res = []
+    for j in range(lo, hi + 1):
+        s2 = s.clone()
+        s2.journal = None
+        try:
+            s2.assume(padd(patom(a), pconst(j), -1), ZERO)
+            s2.range_of(D)
+            res.append(s2)
+        except Infeasible:
+            pass
+    return res
+
+
+def job_value(db):
+    from ..poly import pneg
+    from ..harness import res_parts
+    bad = []
+    flavour = accum_flavour(db)
+    fn = db.fns.get(P + 'str_to_dec')
+    if flavour is None or fn is None:
+        return [('V-PARSE-VALUE', 'str_to_dec', False, 'accum_coeff does not accumulate with wrapping_* or saturating_* operations only: contract A cannot be instantiated', None)]
+    I = Interp(db, Opts(summaries=value_summaries(db, flavour), max_paths=50000))
+    st = I.new_state()
+    st.decomp_depth = 2
+    I.call_root(st, fn, [SliceVal(st.sym('len', 0, MAXLEN, 'usize'), 'str')])
+    outs = I.explore(st)
+    n_ok = n_ovf = 0
+    for o in outs:
+        s = o.state
+        if o.kind != 'ret':
+            bad.append(show_outcome(o)[:200])
+            continue
+        rp = res_parts(o.value)
+        if rp is None:
+            bad.append('not a Result: %s' % show_outcome(o)[:200])
+            continue
+        g = s.ghost
+        dig = g.get('digits')
+        if rp[0] == 'ok':
+            v = rp[1]
+            if not (isinstance(v, Agg) and len(v.fields) == 2 and isinstance(v.fields[0], Int) and isinstance(v.fields[1], Int)):
+                bad.append('Ok payload is not (i128, isize): %s' % show_outcome(o)[:200])
+                continue
+            c, e = v.fields
+            if dig is None:
+                if not (s.itv(c) == (0, 0) and s.itv(e) == (0, 0)):
+                    bad.append('Ok without accumulated digits must be (0, 0)')
+                continue
+            n_ok += 1
+            D, n, lead, w = dict(dig[0]), dict(dig[1]), dig[2], dict(dig[3])
+            if not (poly_eq(s, c.p, D) or poly_eq(s, c.p, pneg(D))):
+                bad.append('Ok((c, e)): c = %s is not +-(the digits of the literal as a number) D = %s on a path with %s digits%s: an overflowed accumulation is accepted'
+                           % (show_poly(s, c.p)[:120], show_poly(s, D)[:60], show_poly(s, n)[:40], '' if lead else ' (possibly leading zeros)'))
+                continue
+            if not s.sign(padd(D, pconst(TWO127), -1)) <= NEG:
+                bad.append('Ok although D <= i128::MAX is not implied by the path')
+            kf = dict(g.get('k_last', pfreeze(pconst(0)))) if g.get('n_calls', 0) >= 2 or g.get('frac_seen') else None
+            # exponent: e + (number of fractional digits) = +-E, or 0 without an exponent part
+            E = g.get('E')
+            rest = [padd(e.p, dict(g['k_last'])), e.p]           # with / without fractional digits accumulated last
+            okx = False
+            for r_ in rest:
+                if E is None:
+                    okx = okx or poly_eq(s, r_, pconst(0))
+                else:
+                    okx = okx or poly_eq(s, r_, dict(E)) or poly_eq(s, r_, pneg(dict(E)))
+            if not okx:
+                bad.append('Ok((c, e)): e = %s is not (+-explicit exponent) - (number of fractional digits)' % show_poly(s, e.p)[:100])
+        else:
+            kind = variant_name(db, rp[1])
+            if kind == 'InternalOverflow':
+                n_ovf += 1
+                if dig is None:
+                    bad.append('InternalOverflow before any digit was accumulated')
+                    continue
+                D, n, lead = dict(dig[0]), dict(dig[1]), dig[2]
+                weak = [s2 for s2 in wrap_cases(s, D) if not s2.sign(padd(D, pconst(TWO127), -1)) <= (ZERO | POS)]
+                if weak:
+                    lo_, hi_ = weak[0].range_of(D)
+                    bad.append('Err(InternalOverflow) on a path where the literal\'s digits D may be as small as %s (%s digits%s): a coefficient that fits is rejected'
+                               % (lo_, show_poly(s, n)[:40], '' if lead else ', possibly leading zeros'))
+    if n_ok == 0:
+        bad.append('no Ok path with digits')
+    if n_ovf == 0:
+        bad.append('no InternalOverflow path')
+    # de-duplicate messages
+    seen = []
+    for b in bad:
+        if b not in seen:
+            seen.append(b)
+    return [('V-PARSE-VALUE', 'str_to_dec', not seen, ' | '.join(seen[:4]) or 'accumulation=%s, paths=%d (Ok with digits: %d, InternalOverflow: %d)' % (flavour, len(outs), n_ok, n_ovf),
+             span_str(fn.get('span')) if seen else None)]
+
+
 def classify(outs, bad):
     n = 0
     for o in outs:
@@ -108,6 +359,8 @@ def run_job(job):
     db = get_db()
     setup_thresholds(db)
     bad = []
+    if kind == 'value':
+        return job_value(db)
     if kind == 'helper':
         fn = helper(db, name)
         opts = Opts(max_paths=20000)
@@ -173,10 +426,11 @@ def run(rep, tier):
     rep.tree_hash = db.tree_hash
     rep.configs = ['default']
     rep.level = 'other'
-    jobs = [('helper', 'skip_leading_zeroes'), ('helper', 'accum_coeff'), ('helper', 'accum_exp'), ('root', 'str_to_dec'), ('root', 'from_str')]
-    run_jobs(rep, __name__, jobs, nproc=5, chunk=1)
+    jobs = [('helper', 'skip_leading_zeroes'), ('helper', 'accum_coeff'), ('helper', 'accum_exp'), ('root', 'str_to_dec'), ('root', 'from_str'), ('value', None)]
+    run_jobs(rep, __name__, jobs, nproc=6, chunk=1)
     rep.floor('H-PARSER-HELPER', 3)
     rep.floor('R-NOPANIC', 2)
+    rep.floor('V-PARSE-VALUE', 1)
     # unsafe inventory of the parser: every unsafe call is one of the modelled operations
     modelled = ('skip_n', 'skip_1', 'read_u64_unchecked', 'get_unchecked', 'read_unaligned')
     n = 0
@@ -202,9 +456,14 @@ def run(rep, tier):
         sh, why = fwd.shape_multi(fn) if fn else (None, 'missing')
         ok = bool(sh) and sh[-1]['callee'] == (fs or {}).get('id') and sh[-1]['ret'] == 'returned' and len(sh) <= 2
         rep.ob('R-FWD-STR', 'TryFrom<%s>' % src, ok, 'forwards to from_str: %s (%s)' % (sh, why))
-    rep.assume('NOT decided: the accepted grammar, the value returned, and whether coefficient overflow is always detected (e.g. from_str("440282366920938463463374607431768211456") = Ok(10^38) '
-               'is a value-level defect of the u128 accumulator that this clause cannot see)')
-    rep.explanation = ('Clause decided: no panic and no out-of-bounds read. The three scanning helpers (skip_leading_zeroes, accum_coeff, accum_exp) are interpreted alone over slices of every '
+    rep.assume('CONTRACT A (assumed, for the value clause V-PARSE-VALUE only): skip_leading_zeroes consumes the maximal prefix of \'0\' bytes; accum_coeff consumes the maximal prefix of k ASCII digits and leaves '
+               '*coeff = (*coeff * 10^k + value of these digits) folded with the arithmetic its body uses (all multiply / add steps wrapping_* -> modulo 2^128, all saturating_* -> min(.., 2^128-1); read off the MIR, '
+               'anything else fails the check), returning k; accum_exp likewise, exact for at most 2 digits. The SWAR digit test / conversion (chunk_contains_8_digits, chunk_to_u64) is inside this contract.')
+    rep.assume('NOT decided: the accepted grammar (which byte sequences are literals), the association of the sign bytes with the signs of coefficient and exponent')
+    rep.explanation = ('Clauses decided: (1) no panic and no out-of-bounds read; (2) under contract A, the magnitude of the result: with D the literal\'s digits read as one number and k the number of fractional digits, '
+                       'every Ok((c, e)) path of str_to_dec has c = +-D with D <= i128::MAX implied by the path and e = +-(explicit exponent) - k; every Err(InternalOverflow) path implies D > i128::MAX '
+                       '(so an accumulation that overflowed is never accepted and a coefficient that fits is never rejected as overflow); the post-processing of (c, e) into a Decimal is C18\'s oracle A.10. '
+                       '(1):  The three scanning helpers (skip_leading_zeroes, accum_coeff, accum_exp) are interpreted alone over slices of every '
                        'length 0..=isize::MAX with generalisation (widening with thresholds, candidate relations to unchanged values) at their loop heads: no panic edge, the preconditions of '
                        'get_unchecked(n..) (n <= len) and read_unaligned::<u64> (len >= 8) hold at all unsafe call sites, and they establish: remaining length <= initial length, returned count = '
                        'len - len\', 0 <= exp <= 10*(0x1000000-1)+9. str_to_dec and from_str are then interpreted with these summaries: every path returns (no overflow of usize / isize arithmetic, '
